@@ -57,6 +57,8 @@ func init() {
 }
 
 func runC02(c *Ctx, r *Report) {
+	r.Rule("C02/mark-only-on-marker", "recordFailed stores a failure only on the true edge of the failure-marker scan", 1)
+	checkMarkOnlyOnMarker(c, r, "C02/mark-only-on-marker")
 	importFoundation(c, r, "C02", "netconf-reader")
 	importFoundation(c, r, "C02", "read-loop")
 	importFoundation(c, r, "C02", "transport-pipe")
